@@ -32,6 +32,21 @@ var inputs = map[string]string{
 	"valid-shadowed":    "grammar demo ;\nKW = /i[f]/ ;\nID = /[a-z]+/ ;\nstart = \"if\" KW ID ;\n",
 }
 
+// validLong: a specification of more than 1 KB whose first 512 bytes (what a reader gets in its first piece) are a
+// complete specification of their own - with fewer terminals, so that a package generated from the first piece alone
+// differs from the right one. Used with faults injected into read.
+var validLong = func() string {
+	head := "grammar demo ;\nNUM = /[0-9]+/ ;\nstart = NUM \"+\" NUM ;\n"
+	pad := "// " + strings.Repeat("-", 512-len(head)-4) + "\n"
+	tail := ""
+	for i := 0; i < 40; i++ {
+		tail += fmt.Sprintf("extra%d = \"zz%d\" NUM ;\n", i, i)
+	}
+	return head + pad + tail
+}()
+
+func init() { inputs["valid-long"] = validLong }
+
 func valid(input string) bool { return strings.HasPrefix(input, "valid") }
 
 var inputOrder = []string{"valid", "lexical", "semantic", "tokconf", "lalrconf", "missing", "valid-no-terminal", "valid-shadowed"}
@@ -398,7 +413,7 @@ func syscallCounts(bin, tmp string, c config) map[string]int {
 	_ = os.RemoveAll(dir)
 	args, _ := setup(dir, c)
 	log := filepath.Join(tmp, "count.log")
-	cmd := exec.Command("strace", append([]string{"-f", "-qq", "-o", log, "-e", "trace=mkdirat,openat,write,newfstatat", bin}, args...)...)
+	cmd := exec.Command("strace", append([]string{"-f", "-qq", "-o", log, "-e", "trace=mkdirat,openat,write,newfstatat,read", bin}, args...)...)
 	cmd.Dir = dir
 	cmd.Env = append(os.Environ(), "NO_COLOR=1", "TERM=dumb")
 	_ = cmd.Run()
@@ -461,7 +476,7 @@ func main() {
 			os.RemoveAll(filepath.Dir(bin))
 		}
 		os.RemoveAll(tmp)
-		r.Set("rule", "configurations: name (9 names in the full product, 26 further identifier / non-identifier names (blank-only and blank-padded ones among them) in a reduced one; go/token decides what an identifier is) x input class x pre-state (and five further spellings of -out: relative, ./, with .., trailing slash, as a separate argument; and 32 output directories with unusual but legal names - tilde, dollar, percent, pattern and quote characters, blanks - while HOME and same-named environment variables point at look-alike directories inside the snapshot) of the output location x flag subsets (complete product in thorough; in quick every pair of dimensions is covered); faults: for every successful configuration an error (ENOSPC, EACCES, EIO) injected into the k-th mkdirat / openat / write / newfstatat for every k the fault-free run performs (strace inject); non-trivial = every configuration (distinct by configuration)")
+		r.Set("rule", "configurations: name (9 names in the full product, 26 further identifier / non-identifier names (blank-only and blank-padded ones among them) in a reduced one; go/token decides what an identifier is) x input class x pre-state (and five further spellings of -out: relative, ./, with .., trailing slash, as a separate argument; and 32 output directories with unusual but legal names - tilde, dollar, percent, pattern and quote characters, blanks - while HOME and same-named environment variables point at look-alike directories inside the snapshot) of the output location x flag subsets (complete product in thorough; in quick every pair of dimensions is covered); faults: for every successful configuration an error (ENOSPC, EACCES, EIO) injected into the k-th mkdirat / openat / write / newfstatat for every k the fault-free run performs, and EIO into every read of a run on a specification longer than one read (strace inject); non-trivial = every configuration (distinct by configuration)")
 		r.Set("evaluations", r.Get("runs"))
 		r.Finish()
 	}
@@ -546,6 +561,8 @@ func main() {
 	if !quick {
 		faultBases = append(faultBases, config{Name: "Größe", Input: "valid", Pre: "out-empty", Verbose: true})
 	}
+	// a long specification, for the faults on read: a file that turns unreadable half way must not be generated from
+	faultBases = append(faultBases, config{Name: "", Input: "valid-long", Pre: "out-empty"})
 	for _, base := range faultBases {
 		counts := syscallCounts(bin, tmp, base)
 		if len(counts) == 0 {
@@ -554,11 +571,18 @@ func main() {
 			continue
 		}
 		r.Set("strace_available", true)
-		for _, call := range []string{"mkdirat", "openat", "write", "newfstatat"} {
+		calls := []string{"mkdirat", "openat", "write", "newfstatat"}
+		if base.Input == "valid-long" {
+			calls = []string{"read"}
+		}
+		for _, call := range calls {
 			for k := 1; k <= counts[call]; k++ {
 				errnos := []string{"ENOSPC", "EACCES", "EIO"}
 				if quick {
 					errnos = errnos[k%3 : k%3+1]
+				}
+				if call == "read" {
+					errnos = []string{"EIO"}
 				}
 				for _, e := range errnos {
 					c := base
